@@ -135,3 +135,14 @@ def fc_dict(entries, nfaces, facedim, nm=lambda x: x, order=None, npbool=False):
     for f in faces:
         tab.setdefault(f, {})
     return {facedim: {f: {a: tuple(v) for a, v in tab[f].items()} for f in tab}}
+
+
+APALACHE_FACE_CHECKS = [("HaloOK", True), ("Symmetric", True), ("RecipOK", True),
+                        ("HaloOffByOne", False), ("HaloNoMirror", False), ("NoReversedSwap", False)]
+
+
+def unbounded_face_checks(ctx, eq_cfgs):
+    """thorough tiers: the link rule for every face size (Apalache, spec/apalache/FaceHaloInd.tla), and TLC's check
+    that the typed definitions Apalache works on equal those of FaceTopology.tla on small instances"""
+    ctx.apalache("FaceHaloInd", APALACHE_FACE_CHECKS)
+    ctx.mc_many([("MC_FaceHaloEq", f"MC_FaceHaloEq_{c}.cfg", {"workers": 4}) for c in eq_cfgs], parallel=len(eq_cfgs))
